@@ -217,8 +217,8 @@ const opdef_t ops_mpf[] = {
   BOTH("mpf_add_ui", op_add_ui), BOTH("mpf_sub_ui", op_sub_ui), BOTH("mpf_mul_ui", op_mul_ui), BOTH("mpf_div_ui", op_div_ui),
   BOTH("mpf_ui_sub", op_ui_sub), BOTH("mpf_ui_div", op_ui_div), BOTH("mpf_mul_2exp", op_mul_2exp), BOTH("mpf_div_2exp", op_div_2exp),
   BOTH("mpf_sqrt_ui", op_sqrt_ui), BOTH("mpf_set_ui", op_set_ui), BOTH("mpf_set_si", op_set_si), BOTH("mpf_set_z", op_set_z),
-  BOTH("mpf_set_q", op_set_q), BOTH("mpf_set_d", op_set_d),
-  BOTH("mpf_integer_p", op_integer_p), BOTH("mpf_cmp", op_cmp), {"mpf_eq", op_eq},
+  BOTH("mpf_set_q", op_set_q), BOTH("mpf_set_d13", op_set_d),
+  BOTH("mpf_integer_p13", op_integer_p), BOTH("mpf_cmp13", op_cmp), {"mpf_eq", op_eq},
   {"mpf_prec_rt", op_prec_rt}, {"mpf_set_prec", op_set_prec}, {"mpf_set_prec_raw", op_set_prec_raw},
   {0, 0}
 };
